@@ -695,6 +695,26 @@ pub fn park_timeout(dur: Duration) {
   }
 }
 
+thread_local! {
+  static SIMULATED_PANICKING: std::cell::Cell<bool> = const { std::cell::Cell::new(false) };
+}
+
+/// `thread::panicking()`: also true while the harness simulates "this code runs because a
+/// panic is unwinding through its owner" (see `with_simulated_unwinding`)
+pub fn panicking() -> bool {
+  std::thread::panicking() || SIMULATED_PANICKING.with(|c| c.get())
+}
+
+/// Run `f` (typically: drop a guard) the way destructors run during unwinding, as far as the
+/// code under test can tell: `thread::panicking()` answers true meanwhile. The harness never
+/// unwinds through user frames for real - the runtime itself ends executions by unwinding.
+pub fn with_simulated_unwinding<R>(f: impl FnOnce() -> R) -> R {
+  SIMULATED_PANICKING.with(|c| c.set(true));
+  let r = f();
+  SIMULATED_PANICKING.with(|c| c.set(false));
+  r
+}
+
 pub fn sleep(dur: Duration) {
   match rt::current() {
     Some(_) => rt::sleep_ns(dur.as_nanos().min(u64::MAX as u128) as u64),
